@@ -278,6 +278,14 @@ func qualifier(pkg *types.Package) types.Qualifier {
 	}
 }
 
+// constructors whose arguments carry values of unknown dynamic type (the dispatcher cannot be executed on them)
+var dispSkip = map[string]string{"NewActionSetField": "argument holds an abstract match field", "NewNXActionRegLoad2": "argument holds an abstract match field",
+	"NewBundleAdd": "argument holds an abstract message", "NewNXActionLearn": "container (list loop cut by invariants without byte contents)", "NewNXActionConnTrack": "container", "NewInstrApplyActions": "container", "NewInstrWriteActions": "container", "NewTunMetadataField": "over the quick budget (name enumeration x field dispatch)", "NewFlowMod": "over the quick budget (covered for framing by C01, decoding by C07)", "NewTLVTableModMessage": "argument holds a symbolic-length list", "NewNxActionHeader": "base type, not an action of its own"}
+
+// controller-originated messages that Parse dispatches
+var dispMsgs = map[string]bool{"NewEchoRequest": true, "NewEchoReply": true, "NewFeaturesRequest": true, "NewConfigRequest": true, "NewSetConfig": true,
+	"NewFlowMod": true, "NewNXTVendorHeader": true, "NewSetControllerID": true, "NewTLVTableRequest": true, "NewBundleControl": true}
+
 // genDispatch writes zz_lemmas_disp_verif.go / zz_contracts_disp_verif.go for package openflow13.
 func genDispatch(L *Loaded) {
 	pn := "openflow13"
@@ -325,6 +333,12 @@ func genDispatch(L *Loaded) {
 		fc := L.Contracts.lookup(fn)
 		if fc == nil {
 			continue
+		}
+		if dispSkip[n] != "" {
+			continue
+		}
+		if mode == "msg" && !dispMsgs[n] {
+			continue // switch-originated kinds have no complete constructor; kinds Parse does not dispatch (group-mod, packet-out, port-mod) are not "both encoded and decoded" through the entry point
 		}
 		// parameters
 		var decl, call []string
@@ -382,8 +396,8 @@ func genDispatch(L *Loaded) {
 					if i := strings.LastIndex(last, "."); i >= 0 {
 						last = last[i+1:]
 					}
-					if strings.HasPrefix(last, "pad") || last == "zero" || last == "zeros" || last == "reserved" || isBytesBuffer(f.t) {
-						continue
+					if strings.HasPrefix(last, "pad") || last == "zero" || last == "zeros" || last == "reserved" || isBytesBuffer(f.t) || (last == "Note" && nt.Obj().Name() == "NXActionNote") {
+						continue // (a note is zero-padded to the action's 8-byte alignment: the decoded note includes the padding)
 					}
 					switch u := f.t.Underlying().(type) {
 					case *types.Slice:
